@@ -575,6 +575,6 @@ Guards(st, e) ==
     ELSE IF e.ev = "ctor" THEN GuardsCtor(st, e)
     ELSE IF e.ev = "close" THEN GuardsClose(st, e)
     ELSE IF e.ev = "fatal" THEN {G("no_fatal_crash", {"C05", "C09", "C15"}, FALSE, NONE)}
-    ELSE IF e.ev = "hang" THEN {G("call_terminates", {"C05", "C09", "C13"}, FALSE, NONE)}
+    ELSE IF e.ev = "hang" THEN {G("call_terminates", {"C05", "C09", "C13", "C15"}, FALSE, NONE)}
     ELSE {}
 =============================================================================
